@@ -330,7 +330,7 @@ def run(ctx: Ctx) -> None:
         for b in bad:
             ctx.violation({"formula": b["formula"], "wrt": b.get("wrt")}, b, kind="replay")
     # the ordering mode of the formula: the derivative is term-wise in the formula's own order, whatever the mode
-    owrt = 1 if ctx.quick else 2
+    owrt = 1        # (both tiers: successive differentiation is the default family's matter; two more variables would triple the thorough tier)
     for mode in ("none", "sort"):
         ordered = family("plain", maxterms, 1, f"the laws + emission for the formulas built with _ordering={mode!r}; <= {maxterms} terms, <= {owrt} differentiation variables",
                          ordering=mode, maxwrt=owrt)
